@@ -86,8 +86,8 @@ IsScalar(n) == n.c \in {"@str", "@none", "@bool", "@strs", "@pk:enum:poskw", "@p
 IsExpr(n) == ~IsScalar(n)
 
 \* dataclass fields, sorted by name as _expr_as_dict sorts them ("parent" is never serialised)
-AllFields == <<"annotation", "arguments", "body", "comparators", "conditions", "default", "element", "elements",
-               "function", "generators", "implicit", "is_async", "iterable", "key", "keys", "kind", "left",
+AllFields == <<"annotation", "arguments", "body", "comparators", "conditions", "conversion", "default", "element",
+               "elements", "format_spec", "function", "generators", "implicit", "is_async", "iterable", "key", "keys", "kind", "left",
                "lower", "name", "operator", "operators", "orelse", "parameters", "right", "slice", "step",
                "target", "test", "upper", "value", "values">>
 ListFields == {"arguments", "comparators", "conditions", "elements", "generators", "keys", "parameters", "values"}
@@ -102,6 +102,7 @@ KidsOfField(n, f) == IF f \in ListFields THEN n.a[f] ELSE <<n.a[f]>>
 \* ---- source template of `step` with the sub-expression x in the hole; all other fields hold constants
 \* ---- (str) or the names the template needs.  Fused steps ("A.f/B.g") build two levels.
 Cmp(iter, conds) == N("ExprComprehension", [conditions |-> conds, is_async |-> BoolN, iterable |-> iter, target |-> Nm("scope")])
+Fmt(v, conv, spec) == N("ExprFormatted", [conversion |-> conv, format_spec |-> spec, value |-> v])
 Wrap(step, x) ==
   CASE step = "Attribute.first"    -> N("ExprAttribute", [values |-> <<x, Nm("none")>>])
     [] step = "BinOp.left"         -> N("ExprBinOp", [left |-> x, operator |-> S, right |-> S])
@@ -128,7 +129,11 @@ Wrap(step, x) ==
     [] step = "IfExp.body"         -> N("ExprIfExp", [body |-> x, orelse |-> S, test |-> S])
     [] step = "IfExp.test"         -> N("ExprIfExp", [body |-> S, orelse |-> S, test |-> x])
     [] step = "IfExp.orelse"       -> N("ExprIfExp", [body |-> S, orelse |-> x, test |-> S])
-    [] step = "JoinedStr.values/Formatted.value" -> N("ExprJoinedStr", [values |-> <<N("ExprFormatted", [value |-> x])>>])
+    [] step = "JoinedStr.values/Formatted.value" -> N("ExprJoinedStr", [values |-> <<Fmt(x, NoneN, NoneN)>>])
+    [] step = "JoinedStr.values/Formatted.value+conversion" -> N("ExprJoinedStr", [values |-> <<Fmt(x, S, NoneN)>>])
+    \* f'{1:{X}}' : the format spec is itself a joined string
+    [] step = "JoinedStr.values/Formatted.format_spec" ->
+         N("ExprJoinedStr", [values |-> <<Fmt(S, NoneN, N("ExprJoinedStr", [values |-> <<Fmt(x, NoneN, NoneN), S>>]))>>])   \* (CPython 3.12 ends the spec with an empty constant)
     [] step = "Lambda.body"        -> N("ExprLambda", [body |-> x, parameters |-> <<>>])
     [] step = "Lambda.parameters/Parameter.default" ->
          N("ExprLambda", [body |-> S, parameters |-> <<N("ExprParameter", [annotation |-> NoneN, default |-> x, kind |-> PK("enum", "poskw"), name |-> S])>>])
@@ -157,14 +162,15 @@ AllSteps == {"Attribute.first", "BinOp.left", "BinOp.right", "BoolOp.values", "C
              "Call.arguments/VarKeyword.value", "Compare.left", "Compare.comparators", "Dict.keys", "Dict.values",
              "DictComp.key", "DictComp.value", "DictComp.generators/Comprehension.iterable", "GeneratorExp.element",
              "GeneratorExp.generators/Comprehension.conditions", "IfExp.body", "IfExp.test", "IfExp.orelse",
-             "JoinedStr.values/Formatted.value", "Lambda.body", "Lambda.parameters/Parameter.default",
+             "JoinedStr.values/Formatted.value", "JoinedStr.values/Formatted.value+conversion",
+             "JoinedStr.values/Formatted.format_spec", "Lambda.body", "Lambda.parameters/Parameter.default",
              "Lambda.parameters/Parameter.default+posonly", "List.elements", "List.elements/VarPositional.value",
              "ListComp.element", "ListComp.generators/Comprehension.iterable", "NamedExpr.value", "Set.elements",
              "SetComp.element", "Subscript.left", "Subscript.slice", "Subscript.slice/Slice.lower",
              "Subscript.slice/Slice.upper", "Subscript.slice/Slice.step", "Subscript.slice/Tuple.elements",
              "Tuple.elements", "UnaryOp.value", "Yield.value", "YieldFrom.value"}
 \* one representative per iteration pattern, used for the deepest spines
-CoreSteps == {"Attribute.first", "BinOp.left", "Call.function+kw", "Call.arguments", "Call.arguments/Keyword.value",
+CoreSteps == {"JoinedStr.values/Formatted.format_spec", "Attribute.first", "BinOp.left", "Call.function+kw", "Call.arguments", "Call.arguments/Keyword.value",
               "Lambda.parameters/Parameter.default+posonly", "List.elements", "Subscript.left", "Subscript.slice",
               "Subscript.slice/Tuple.elements", "DictComp.generators/Comprehension.iterable", "Yield.value"}
 
@@ -223,12 +229,17 @@ ExprJSON(n) ==
 
 \* ---- _load_expression (json_decoder is bottom-up: children first) ---------------------------------------
 \* cls(**expression): every ExprName is created with parent=None; for ExprAttribute the names after the
-\* first ExprName are linked to the previous one.
+\* first ExprName are linked to the previous one; when the first part is a str (a literal), the name after it gets
+\* the parent "str" as the builder gives it.
 LinkChain(n) ==
   LET vs == n.a.values
+      strFirst == vs[1].c = "@str"
       SeenName(i) == \E j \in 1..(i - 1) : vs[j].c = "ExprName"
   IN [n EXCEPT !.a.values = [i \in 1..Len(vs) |->
-        IF vs[i].c = "ExprName" /\ SeenName(i) THEN [vs[i] EXCEPT !.par = "prev"] ELSE vs[i]]]
+        IF vs[i].c # "ExprName" THEN vs[i]
+        ELSE IF SeenName(i) THEN [vs[i] EXCEPT !.par = "prev"]
+        ELSE IF strFirst /\ i > 1 THEN [vs[i] EXCEPT !.par = "str"]
+        ELSE vs[i]]]
 
 RECURSIVE LoadExpr(_, _)
 LoadExpr(key, j) ==
@@ -247,28 +258,16 @@ LoadExpr(key, j) ==
              n == IF cls = "ExprName" THEN [c |-> cls, a |-> a, par |-> "none"] ELSE N(cls, a)
          IN IF cls = "ExprAttribute" THEN LinkChain(n) ELSE n
 
-\* ---- _attach_parent_to_expr: `for elem in expr` is iterate(flat=False), i.e. the FIRST LAYER only --------
-AttachElem(m) ==
-  IF m.c = "ExprName" THEN [m EXCEPT !.par = "scope"]
-  ELSE IF m.c = "ExprAttribute" /\ Len(m.a.values) > 0 /\ m.a.values[1].c = "ExprName"
-       THEN [m EXCEPT !.a.values[1].par = "scope"]
-  ELSE m
-\* fields whose content iterate() yields: everything except ExprKeyword.function; ExprParameter has no
-\* iterate() of its own, ExprLambda yields the defaults of its parameters and its body
-IterField(n, f) ==
-  CASE n.c = "ExprKeyword"   -> f = "value"
-    [] n.c = "ExprParameter" -> FALSE
-    [] n.c = "ExprLambda"    -> f = "body"
-    [] OTHER -> TRUE
+\* ---- _attach_parent_to_expr: a walk over the WHOLE tree along the dataclass fields (lists included, also the
+\* ---- fields iterate() does not yield: ExprKeyword.function, the ExprParameters of a lambda).  A name gets the scope
+\* ---- object; of an attribute chain only the first part is visited (the other names stay linked to each other).
+RECURSIVE AttachParent(_)
 AttachParent(n) ==
   IF IsScalar(n) THEN n                               \* not isinstance(expr, Expr): return
-  ELSE IF n.c = "ExprName" THEN AttachElem(n)         \* ExprName.iterate yields itself
+  ELSE IF n.c = "ExprName" THEN [n EXCEPT !.par = "scope"]
+  ELSE IF n.c = "ExprAttribute" THEN [n EXCEPT !.a.values[1] = AttachParent(@)]
   ELSE [n EXCEPT !.a = [f \in DOMAIN n.a |->
-          IF n.c = "ExprLambda" /\ f = "parameters"
-          THEN [i \in 1..Len(n.a[f]) |-> [n.a[f][i] EXCEPT !.a.default = AttachElem(n.a[f][i].a.default)]]
-          ELSE IF ~IterField(n, f) THEN n.a[f]
-          ELSE IF f \in ListFields THEN [i \in 1..Len(n.a[f]) |-> AttachElem(n.a[f][i])]
-          ELSE AttachElem(n.a[f])]]
+          IF f \in ListFields THEN [i \in 1..Len(n.a[f]) |-> AttachParent(n.a[f][i])] ELSE AttachParent(n.a[f])]]
 
 \* an expression value in a slot of an object: the tree and the object its scope-names resolve in
 EV(e, scope) == [e |-> e, scope |-> scope]
@@ -413,18 +412,19 @@ FirstMissing(j, ks) == LET miss == {i \in 1..Len(ks) : ks[i] \notin Keys(j)}
                        IN IF miss = {} THEN "" ELSE ks[CHOOSE i \in miss : \A k \in miss : i <= k]
 
 \* _attach_parent_to_exprs(obj, parent): WHICH slots of WHICH kinds are visited.
-\*   Class: docstring value (a str: no-op) and decorators        - NOT bases
+\*   Class: docstring value (a str: no-op), decorators, bases
 \*   Function: decorators, parameter annotations and defaults, returns
-\*   Attribute: value                                             - NOT annotation
+\*   Attribute: value, annotation
 AttachEV(ev) == IF IsScalar(ev.e) THEN ev ELSE EV(AttachParent(ev.e), "container")
 AttachObj(o) ==
   CASE o.kind = "class" ->
-         [o EXCEPT !.decorators = [i \in 1..Len(o.decorators) |-> [o.decorators[i] EXCEPT !.value = AttachEV(@)]]]
+         [o EXCEPT !.decorators = [i \in 1..Len(o.decorators) |-> [o.decorators[i] EXCEPT !.value = AttachEV(@)]],
+                   !.bases = [i \in 1..Len(o.bases) |-> AttachEV(o.bases[i])]]
     [] o.kind = "function" ->
          [o EXCEPT !.decorators = [i \in 1..Len(o.decorators) |-> [o.decorators[i] EXCEPT !.value = AttachEV(@)]],
                    !.params = [i \in 1..Len(o.params) |-> [o.params[i] EXCEPT !.annotation = AttachEV(@), !.default = AttachEV(@)]],
                    !.returns = AttachEV(@)]
-    [] o.kind = "attribute" -> [o EXCEPT !.value = AttachEV(@)]
+    [] o.kind = "attribute" -> [o EXCEPT !.value = AttachEV(@), !.annotation = AttachEV(@)]
     [] OTHER -> o                                    \* Module and Alias members: nothing
 
 \* the hook on one JSON object whose nested objects are decoded already.  `sub` is the decoded chain below
@@ -709,35 +709,13 @@ CleanEncode == \A i \in 1..Len(MkChain) : MkChain[i].kind = "module" =>
 \* (since the decoder reads lineno with .get, builds the file path by type and dispatches on str values only,
 \*  every document Encode produces in minimal form is decodable)
 CleanDecode == TRUE
-\* Declaratively: which trees come back with the parents the builder gave them.
-\*  - a region the walk does not visit keeps "prev" links (re-made by _load_expression) and None, nothing else
-\*  - an element of the first layer is re-attached when it is a name or an attribute chain starting with one
-\*  - a top-level attribute chain gets EVERY name value re-parented to the scope: never what the builder did
-Unvisited(m) == \A i \in 1..Len(NamePars(m)) : NamePars(m)[i] \in {"prev", "none"}
-SafeElem(m) == \/ IsScalar(m)
-               \/ (m.c = "ExprName" /\ m.par = "scope")
-               \/ (m.c = "ExprAttribute" /\ m.a.values[1].c = "ExprName" /\ m.a.values[1].par = "scope"
-                   /\ \A i \in 2..Len(m.a.values) : m.a.values[i].c = "ExprName" /\ m.a.values[i].par = "prev")
-               \/ (m.c # "ExprName" /\ ~(m.c = "ExprAttribute" /\ m.a.values[1].c = "ExprName") /\ Unvisited(m))
-SafeTree(n) ==
-  \/ IsScalar(n)
-  \/ (n.c = "ExprName" /\ n.par = "scope")
-  \/ /\ n.c \notin {"ExprName", "ExprAttribute"}
-     /\ \A f \in DOMAIN n.a :
-          IF n.c = "ExprLambda" /\ f = "parameters"
-          THEN \A i \in 1..Len(n.a[f]) : SafeElem(n.a[f][i].a.default)
-          ELSE IF ~IterField(n, f) THEN \A k \in 1..Len(KidsOfField(n, f)) : Unvisited(KidsOfField(n, f)[k])
-          ELSE \A k \in 1..Len(KidsOfField(n, f)) : SafeElem(KidsOfField(n, f)[k])
-AttachedSlot(k, s) == \/ (k = "class" /\ s = "decorator")
-                      \/ (k = "function" /\ s \in {"decorator", "param.annotation", "param.default", "returns"})
-                      \/ (k = "attribute" /\ s = "value")
+\* Declaratively: the walk gives every name the parent class the builder gave it (scope for a name, prev / str /
+\* none inside attribute chains); what can still differ is the scope OBJECT: the value and annotation of an attribute
+\* assigned in __init__ were built in the scope of the function and come back attached to the class.
 CleanNames == LET o == FocusOf(MkChain)
               IN \A i \in 1..Len(SlotsOf(o)) :
-                   LET sl == SlotsOf(o)[i]
-                   IN NamePars(sl.ev.e) # <<>> =>
-                        IF AttachedSlot(o.kind, sl.slot)
-                        THEN sl.ev.scope = "container" /\ SafeTree(sl.ev.e)
-                        ELSE Unvisited(sl.ev.e)          \* bases, attribute annotations: never visited
+                   (\E k \in 1..Len(NamePars(SlotsOf(o)[i].ev.e)) : NamePars(SlotsOf(o)[i].ev.e)[k] = "scope")
+                     => SlotsOf(o)[i].ev.scope = "container"
 \* (the enum of lambda parameter kinds is restored on load: every expression renders as before)
 CleanRender == TRUE
 CleanFull == \A i \in 1..Len(MkChain) : Parsed(MkChain[i].doc) = <<"text">>
